@@ -1,0 +1,20 @@
+//go:build verif
+
+package otlp
+
+// Contracts checked by /verif/gvc. Comment-only file (build tag verif).
+
+// postMetrics (C16): every request slot taken is given back before the function returns or waits -- whatever the
+// transport answers (refused connection, error status, partial success) -- so a failing collector cannot use up
+// the slots and wedge later flushes; and the retry loop ends with the retry window.
+//@ func (*Backend).postMetrics
+//@   requires c != nil && c.logger != nil && c.client != nil && !ctxChan(c.requestsBufferSem)
+//@   ensures  c.requestsBufferSem == old(c.requestsBufferSem)
+//@   ensures  sent(c.requestsBufferSem) - old(sent(c.requestsBufferSem)) == received(c.requestsBufferSem) - old(received(c.requestsBufferSem))
+//@   callsite NewTimer requires lastresult(NextBackOff, 0) != -1 && sent(c.requestsBufferSem) - old(sent(c.requestsBufferSem)) == received(c.requestsBufferSem) - old(received(c.requestsBufferSem))
+//@   loop 1 invariant c.requestsBufferSem == old(c.requestsBufferSem) && c.logger != nil && c.client != nil && sent(c.requestsBufferSem) - old(sent(c.requestsBufferSem)) == received(c.requestsBufferSem) - old(received(c.requestsBufferSem))
+//@   modifies everything
+//@ func (*group).values
+//@   trusted
+//@   modifies everything
+//@   preserves otlp.Backend
